@@ -37,6 +37,17 @@ CHECKS = {
              "for byte (Base/Json.print_json vs json.dump).",
         note="json text parsing/printing is CPython's; print_json is a model of the writer validated on every case.",
         design="DESIGN.md section 6 C03"),
+    "C08": dict(
+        text="Coq theorems about the JSON writer model: C08_json_same_content (two documents whose mappings have the same "
+             "content at every depth print to the same bytes), C08_reordering_is_same_content (any permutation of a mapping's "
+             "entries - insertion order, dict/set iteration order, hash seed - is the same content), C08_sort_canonical (key "
+             "sorting of distinct keys is permutation-invariant; via commutation of insertions on a strict total order), "
+             "C08_print_canon. Tie: the same content is constructed in K interleavings and dumped twice in separate interpreter "
+             "processes under several PYTHONHASHSEED values for rpms, modules, extra files, images and composeinfo; all byte "
+             "sequences must coincide with each other and with the model's.",
+        note="Partial: list-valued positions derived from sets (image cells sorted by path, arches, child id lists) are covered by "
+             "the correspondence, not by a separate Coq theorem; treeinfo's sorted INI output is covered under C04/C17.",
+        design="DESIGN.md section 6 C08"),
     "C09": dict(
         text="Coq theorems: C09_reach_inv (in every manifest of format >= 1.1 reachable from a fresh one by ANY sequence of add "
              "calls, images with equal identity have equal checksums), C09_add_preserves_inv, C09_add_accepts_iff (incl. the "
